@@ -41,6 +41,9 @@ where
     let (stop_channel, stop_callback) = futures::channel::oneshot::channel::<()>();
     let task_handle = async_rt::task::spawn(async move {
         let mut stop_callback = stop_callback.fuse();
+        // Dropped when this task ends, which wakes every handshake still in progress.
+        let (_handshakes_stop, handshakes_stopped) = futures::channel::oneshot::channel::<()>();
+        let handshakes_stopped = handshakes_stopped.shared();
         loop {
             select! {
                 incoming = listener.accept().fuse() => {
@@ -57,7 +60,19 @@ where
                             )
                         })
                         .map_err(|err| err.into());
-                    async_rt::task::spawn(cback(maybe_accepted));
+                    // The handshake runs in its own task, but not beyond the life of
+                    // this listener: a peer that never completes it must not keep its
+                    // connection (and the socket's backend) alive after unbind/close.
+                    let handshake = cback(maybe_accepted);
+                    let stopped = handshakes_stopped.clone();
+                    async_rt::task::spawn(async move {
+                        let handshake = handshake.fuse();
+                        futures::pin_mut!(handshake);
+                        select! {
+                            _ = handshake => {},
+                            _ = stopped.fuse() => {},
+                        }
+                    });
                 }
                 _ = stop_callback => {
                     break
